@@ -120,6 +120,7 @@ func lockingHistory(w *tracew.Writer, seed int64, run, depth int, o LockingOpts)
 	}
 	g := &lockGen{s: s, r: r, nextID: 1, nv: o.NVals, mode: o.Mode}
 	for b := 0; b < depth; b++ {
+		g.exodus = o.Mode == "exodus" && b == depth-1
 		plan := g.plan()
 		if _, err := s.RunBlock(plan); err != nil {
 			return err
@@ -135,6 +136,7 @@ type lockGen struct {
 	nv     int
 	mode   string
 	clean  bool // only requests the modules accept (the block message must then succeed)
+	exodus bool // this block: every validator, the bedrock one included, withdraws everything (the whole set leaves at once)
 }
 
 func (g *lockGen) id() int { g.nextID++; return g.nextID }
@@ -300,6 +302,21 @@ func (g *lockGen) plan() *BlockPlan {
 			lk.Unlocks = append(lk.Unlocks, &goattypes.UnlockRequest{Id: uint64(id), Validator: c.KR.Vals[cnd[0]].EthAddr(), Recipient: rndAddr(r),
 				Token: project.TokenAddrs[cnd[1]], Amount: big.NewInt(amt)})
 			unlocks = append(unlocks, Ev{"id": id, "v": int(cnd[0]) + 1, "t": int(cnd[1]) + 1, "amt": amt})
+		}
+	}
+	if g.exodus {
+		for vi, v := range st.Val {
+			if !v.Exists {
+				continue
+			}
+			for ti := range st.Tokens {
+				if v.Locking[ti] > 0 {
+					id := g.id()
+					lk.Unlocks = append(lk.Unlocks, &goattypes.UnlockRequest{Id: uint64(id), Validator: c.KR.Vals[vi].EthAddr(), Recipient: rndAddr(r),
+						Token: project.TokenAddrs[ti], Amount: big.NewInt(v.Locking[ti])})
+					unlocks = append(unlocks, Ev{"id": id, "v": vi + 1, "t": ti + 1, "amt": v.Locking[ti]})
+				}
+			}
 		}
 	}
 	if nUnl > 0 {
